@@ -180,7 +180,7 @@ Lemma remove_unique n c1 p c2 : p_name p = n ->
   (forall q, In q (c1 ++ c2) -> p_name q <> n) -> remove_by_name n (c1 ++ p :: c2) = c1 ++ c2.
 Proof. intros H1 H2. rewrite remove_by_name_without. exact (without_unique n c1 p c2 H1 H2). Qed.
 
-Definition mk (i : nat) (n : N) : plugin := {| p_id := i; p_name := n; p_kind := KPlain; p_on := true |}.
+Definition mk (i : nat) (n : N) : plugin := mkp i n KPlain RRec.
 Lemma remove_old_refuted : ~ (forall n c, remove_by_name_old n c = without n c).
 Proof. intro H. specialize (H 1%N [mk 2 3%N; mk 1 2%N; mk 0 1%N]). vm_compute in H. discriminate H. Qed.
 
@@ -306,19 +306,6 @@ Proof.
   pose proof (exec_stmts_bounded (t_teardown t) m2 tb2 H2) as H3. destruct (exec_stmts m2 tb2 (t_teardown t)) as [[m3 tb3] ok3]. exact H3.
 Qed.
 
-Lemma step_bounded st o : length (s_tbl st) <= max_set -> length (s_tbl (fst (step st o))) <= max_set.
-Proof.
-  intro H. destruct o as [n k|id|id|n| |t]; cbn [step fst s_tbl]; try exact H.
-  - destruct k; cbn; [exact H|lia].
-  - unfold run_test. pose proof (exec_test_bounded (s_mem st) (s_tbl st) t H) as H1.
-    destruct (exec_test (s_mem st) (s_tbl st) t) as [[m1 tb1] f]. cbn [fst snd] in H1.
-    pose proof (post_all_state (s_chain st) m1 tb1) as Hp. destruct (post_all (s_chain st) m1 tb1) as [[m2 tb2] lg].
-    cbn [fst s_tbl] in *. destruct (sp_active (s_chain st)); inversion Hp; subst; [cbn; lia|exact H1].
-Qed.
-(* in every session whatsoever the table index never passes the capacity *)
-Lemma session_bounded ops : forall st, length (s_tbl st) <= max_set -> length (s_tbl (exec_ops st ops)) <= max_set.
-Proof. induction ops as [|o r IH]; intros st H; cbn [exec_ops]; [exact H|]. apply IH. apply step_bounded. exact H. Qed.
-
 (* ================================================================= sessions *)
 Lemma nat_list_eqb_refl l : nat_list_eqb l l = true.
 Proof. induction l; cbn; [reflexivity|]. rewrite Nat.eqb_refl. exact IHl. Qed.
@@ -342,124 +329,10 @@ Proof.
   pose proof (no_set_keeps_table (t_teardown t) m2 tb H3) as E3. destruct (exec_stmts m2 tb (t_teardown t)) as [[m3 tb3] ok3]. exact E3.
 Qed.
 
-(* one test of a valid session, started with an empty table: the observation is the demanded one and the table is empty again *)
-Lemma run_test_ok m c t : test_ok c t = true ->
-  match run_test m [] c t with
-  | (m2, tb2, it) => tb2 = [] /\ it = ITest (snd (ref_test m t)) (enabled_ids c) (rev (enabled_ids c)) (fst (ref_test m t))
-                     /\ m2 = fst (ref_test m t)
-  end.
-Proof.
-  unfold test_ok. intro H. apply andb_true_iff in H. destruct H as [_ H].
-  unfold run_test. pose proof (test_refines m t) as Hr. pose proof (no_set_test_keeps_table t m []) as Hk.
-  destruct (exec_test m [] t) as [[m1 tb1] failed]. cbn [fst snd] in Hk. destruct Hr as [Hr1 Hr2].
-  pose proof (post_all_state c m1 tb1) as Hp. pose proof (post_all_log c m1 tb1) as Hl.
-  destruct (post_all c m1 tb1) as [[m2 tb2] lg]. cbn [fst snd] in Hp, Hl. subst lg failed.
-  rewrite !pre_all_enabled.
-  destruct (sp_active c); cbn [orb] in H.
-  - inversion Hp; subst. rewrite Hr1. repeat split.
-  - apply negb_true_iff in H. specialize (Hk H). subst tb1. inversion Hp; subst. cbn [restore] in Hr1. rewrite Hr1. repeat split.
-Qed.
-
-Lemma run_meets_spec_from ops : forall st, s_tbl st = [] -> valid_from (s_chain st) (s_next st) ops = true ->
-  spec_from (s_chain st) (s_next st) (s_mem st) ops (run_from st ops) = true.
-Proof.
-  induction ops as [|o r IH]; intros st Ht Hv; cbn [run_from spec_from]; [reflexivity|].
-  destruct o as [n k|id|id|n| |t]; cbn [valid_from] in Hv; cbn [step fst snd app].
-  - apply (IH {| s_mem := s_mem st; s_tbl := match k with KSetPtr => [] | KPlain => s_tbl st end;
-                 s_chain := {| p_id := s_next st; p_name := n; p_kind := k; p_on := true |} :: s_chain st; s_next := S (s_next st) |});
-      [destruct k; [exact Ht|reflexivity]|exact Hv].
-  - apply (IH {| s_mem := s_mem st; s_tbl := s_tbl st; s_chain := set_on id true (s_chain st); s_next := s_next st |}); assumption.
-  - apply (IH {| s_mem := s_mem st; s_tbl := s_tbl st; s_chain := set_on id false (s_chain st); s_next := s_next st |}); assumption.
-  - rewrite remove_by_name_without, nat_list_eqb_refl. cbn [andb].
-    apply (IH {| s_mem := s_mem st; s_tbl := s_tbl st; s_chain := without n (s_chain st); s_next := s_next st |}); assumption.
-  - apply (IH {| s_mem := s_mem st; s_tbl := s_tbl st; s_chain := []; s_next := s_next st |}); assumption.
-  - apply andb_true_iff in Hv. destruct Hv as [Hv1 Hv]. rewrite Ht.
-    pose proof (run_test_ok (s_mem st) (s_chain st) t Hv1) as Hr.
-    destruct (run_test (s_mem st) [] (s_chain st) t) as [[m2 tb2] it]. destruct Hr as [-> [-> ->]].
-    cbn [fst snd app]. rewrite eqb_reflx, !nat_list_eqb_refl, mem_eqb_refl. cbn [andb].
-    apply (IH {| s_mem := fst (ref_test (s_mem st) t); s_tbl := []; s_chain := s_chain st; s_next := s_next st |}); [reflexivity|exact Hv].
-Qed.
-
-Lemma run_meets_spec s : valid s = true -> spec s (run s) = true.
-Proof. intro H. apply (run_meets_spec_from s init_state); [reflexivity|exact H]. Qed.
-
-(* the table is empty whenever a test of a valid session starts *)
-Lemma table_empty_from ops : forall st, s_tbl st = [] -> valid_from (s_chain st) (s_next st) ops = true ->
-  s_tbl (exec_ops st ops) = [].
-Proof.
-  induction ops as [|o r IH]; intros st Ht Hv; cbn [exec_ops]; [exact Ht|].
-  destruct o as [n k|id|id|n| |t]; cbn [valid_from] in Hv; cbn [step fst]; apply IH; cbn [s_tbl s_chain s_next]; try assumption.
-  - destruct k; [exact Ht|reflexivity].
-  - rewrite remove_by_name_without. exact Hv.
-  - apply andb_true_iff in Hv. destruct Hv as [Hv1 Hv]. rewrite Ht.
-    pose proof (run_test_ok (s_mem st) (s_chain st) t Hv1) as Hr.
-    destruct (run_test (s_mem st) [] (s_chain st) t) as [[m2 tb2] it]. destruct Hr as [-> _]. reflexivity.
-  - apply andb_true_iff in Hv. destruct Hv as [Hv1 Hv]. rewrite Ht.
-    destruct (run_test (s_mem st) [] (s_chain st) t) as [[m2 tb2] it]. exact Hv.
-Qed.
-
-Lemma chain_tracks ops : forall st c nx, s_chain st = c -> s_next st = nx ->
-  forall r, valid_from c nx (ops ++ r) = true ->
-  valid_from c nx ops = true /\ valid_from (s_chain (exec_ops st ops)) (s_next (exec_ops st ops)) r = true.
-Proof.
-  induction ops as [|o ops IH]; intros st c nx Hc Hn r Hv; cbn [app exec_ops] in *.
-  - subst. split; [reflexivity|exact Hv].
-  - destruct o as [n k|id|id|n| |t]; cbn [valid_from] in *; cbn [step fst].
-    + eapply IH; [| |exact Hv]; cbn; congruence.
-    + eapply IH; [| |exact Hv]; cbn; congruence.
-    + eapply IH; [| |exact Hv]; cbn; congruence.
-    + eapply IH; [| |exact Hv]; cbn; [rewrite remove_by_name_without|]; congruence.
-    + eapply IH; [| |exact Hv]; cbn; congruence.
-    + apply andb_true_iff in Hv. destruct Hv as [Hv1 Hv].
-      destruct (run_test (s_mem st) (s_tbl st) (s_chain st) t) as [[m2 tb2] it]. cbn [fst].
-      destruct (IH {| s_mem := m2; s_tbl := tb2; s_chain := s_chain st; s_next := s_next st |} c nx Hc Hn r Hv) as [Ha Hb].
-      split; [rewrite Hv1; exact Ha|exact Hb].
-Qed.
-
-Lemma table_empty_before_every_test s1 t s2 : valid (s1 ++ OTest t :: s2) = true -> s_tbl (exec_ops init_state s1) = [].
-Proof.
-  intro H. apply table_empty_from; [reflexivity|].
-  apply (chain_tracks s1 init_state [] 0 eq_refl eq_refl (OTest t :: s2)). exact H.
-Qed.
-
-(* ================================================================= order of the plugin actions *)
-Lemma install_order l : forall st,
-  map p_id (s_chain (exec_ops st (map (fun nk => OInstall (fst nk) (snd nk)) l))) =
-  rev (seq (s_next st) (length l)) ++ map p_id (s_chain st).
-Proof.
-  induction l as [|[n k] l IH]; intro st; cbn [map exec_ops length seq rev app]; [reflexivity|].
-  rewrite IH. cbn [step fst s_chain s_next map p_id]. rewrite <- app_assoc. reflexivity.
-Qed.
-
-Lemma test_order m tb c t :
-  match run_test m tb c t with
-  | (_, _, ITest _ pre post _) => pre = map p_id (filter p_on c) /\ post = rev pre
-  | _ => False
-  end.
-Proof.
-  unfold run_test. destruct (exec_test m tb t) as [[m1 tb1] f].
-  pose proof (post_all_log c m1 tb1) as Hl. destruct (post_all c m1 tb1) as [[m2 tb2] lg]. cbn [snd] in Hl.
-  split; [apply pre_all_enabled|exact Hl].
-Qed.
-
 (* ================================================================= the hypotheses of the theorems are satisfiable *)
-Definition ex_test : test :=
-  {| t_setup := [SSet 3 7%N; SWrite 3 8%N]; t_body := [SSet 3 9%N; SSet 4 1%N; SAbort; SWrite 5 5%N]; t_teardown := [SWrite 6 2%N; SSet 3 0%N] |}.
-Definition ex_session : list op :=
-  [OInstall 1%N KPlain; OInstall 2%N KSetPtr; OInstall 3%N KPlain; ODisable 0; OTest ex_test; ORemove 1%N; OTest ex_test].
-Example ex_valid : valid ex_session = true.
-Proof. vm_compute. reflexivity. Qed.
-Example ex_run : run ex_session =
-  [ITest true [2; 1] [1; 2] (upd init_mem 6 2%N); IChain [2; 1]; ITest true [2; 1] [1; 2] (upd init_mem 6 2%N)].
-Proof. vm_compute. reflexivity. Qed.
 Example ex_first_value :
   existsb is_abort [SWrite 3 8%N; SSet 4 1%N] = false /\ existsb (sets_loc 3) [SWrite 3 8%N; SSet 4 1%N] = false /\
   count_sets [SWrite 3 8%N; SSet 4 1%N] < max_set /\ 3 < length init_mem.
 Proof. vm_compute. repeat split; repeat constructor. Qed.
-(* one redirection more than the table holds: the test fails, nothing lies beyond the table, every pointer is back *)
-Definition ex_overflow : list op :=
-  [OInstall 1%N KSetPtr; OTest {| t_setup := []; t_body := map (fun i => SSet i 7%N) (seq 0 (S max_set)); t_teardown := [] |}].
-Example ex_limit : valid ex_overflow = true /\ run ex_overflow = [ITest true [0] [0] init_mem].
-Proof. vm_compute. split; reflexivity. Qed.
 Example ex_unique : remove_by_name 2%N [mk 2 3%N; mk 1 2%N; mk 0 1%N] = [mk 2 3%N; mk 0 1%N].
 Proof. vm_compute. reflexivity. Qed.
